@@ -413,8 +413,8 @@ def run_case(idx, rng, P, rep):
                     # a name that is not there, with a default: the default comes back, nothing is removed, nobody is told
                     dflt = fresh(rng)
                     trace.append((op, 'missing-name', dflt))
-                    got = o.pop(f'nosuch{step}', dflt)
                     rep.count('pops_of_missing_name_with_default')
+                    got = o.pop(f'nosuch{step}', dflt)
                     mutated = False
                     if got is not dflt:
                         viol('return-value', f'pop(<missing name>, default) returned {got!r}, not the default', 'pop-key-missing')
